@@ -751,11 +751,10 @@ func (n *AlertNode) runAlert([]byte) error {
 	)
 	n.statMap.Set(statCardinalityGauge, consumer.CardinalityVar())
 
-	if err := consumer.Consume(); err != nil {
-		return err
-	}
+	err := consumer.Consume()
 
-	// Close the anonymous topic.
+	// Close the anonymous topic, also when the node failed:
+	// the topic and its handlers are owned by this node and must not outlive it.
 	n.et.tm.AlertService.CloseTopic(n.anonTopic)
 
 	// Deregister Handlers on topic
@@ -763,7 +762,7 @@ func (n *AlertNode) runAlert([]byte) error {
 		n.et.tm.AlertService.DeregisterAnonHandler(n.anonTopic, h)
 	}
 
-	return nil
+	return err
 }
 
 func (n *AlertNode) NewGroup(group edge.GroupInfo, first edge.PointMeta) (edge.Receiver, error) {
